@@ -96,9 +96,21 @@ theorem C16_replaceArgs_length (args : List Arg) (info : List NewArg) :
 /-- **C16.** `add_arg_to_call` appends exactly one keyword argument and keeps all the others. -/
 theorem C16_addArg (args : List Arg) (k v : String) : addArg args k v = args ++ [mkKw k v] := rfl
 
-/-- **C16.** swapping the callee keeps the arguments (unless the caller passes replacements). -/
+theorem parenGens_of_no_gen (args : List Arg) (h : ∀ a ∈ args, a.gen = false) : parenGens args = args := by
+  unfold parenGens
+  split
+  · rfl
+  · conv => rhs; rw [← List.map_id args]
+    exact List.map_congr_left fun a ha => by simp [h a ha]
+
+/-- **C16.** swapping the callee keeps the arguments (unless the caller passes replacements): all of them,
+in order; a bare generator argument gets parentheses when it is no longer alone. -/
 theorem C16_callTarget_args (n : String) (args : List Arg) (tgt : String) (f : Option String) :
-    (callTarget n args tgt f none).2 = args := rfl
+    (callTarget n args tgt f none).2 = parenGens args := rfl
+
+theorem C16_callTarget_args_plain (n : String) (args : List Arg) (tgt : String) (f : Option String)
+    (h : ∀ a ∈ args, a.gen = false) : (callTarget n args tgt f none).2 = args := by
+  rw [C16_callTarget_args, parenGens_of_no_gen args h]
 
 /-! ### C01: the edited call is still a well-formed call -/
 
@@ -205,6 +217,20 @@ theorem C01_addArg_old_bare_generator :
     let args : List Arg := [{ kw := none, star := .none, val := "u for u in urls", gen := true }]
     wfGen args = true ∧ wfGen (addArg args "timeout" "60") = false ∧ wfGen (addArgToCall args "timeout" "60") = true ∧
     (addArgToCall args "timeout" "60").map (·.val) = ["(u for u in urls)", "60"] := by
+  decide
+
+/-- **C01 (update_call_target).** whatever list the new call is built from, if it obeys the ordering
+rule the call written does too, and no generator in it is bare next to another argument -/
+theorem C01_callTarget_wf (n : String) (args : List Arg) (tgt : String) (f : Option String) (r : Option (List Arg))
+    (h : wf (callTargetArgs args r) = true) : wfGen (callTarget n args tgt f r).2 = true :=
+  parenGens_wfGen _ h
+
+/-- the code before the fix: `subprocess.run(a for a in args)` became `safe_command.run(subprocess.run, a for a in args)` -/
+theorem C01_callTarget_old_bare_generator :
+    let g : Arg := { kw := none, star := .none, val := "a for a in args", gen := true }
+    let f : Arg := { kw := none, star := .none, val := "subprocess.run" }
+    wfGen [g] = true ∧ wfGen (callTarget "run" [g] "safe_command" none (some [f, g]) false).2 = false ∧
+    (callTarget "run" [g] "safe_command" none (some [f, g])).2.map (·.val) = ["subprocess.run", "(a for a in args)"] := by
   decide
 
 /-! ### C07: the editor is a fixed point on its own output -/
